@@ -132,7 +132,8 @@ inductive Op where
   | rstart (id : Nat)
   | rstop (id : Nat)
   | capture          -- incremental snapshot attempt: CreateWAL + Checkpoint(walWriter)
-  | full             -- full snapshot attempt: Checkpoint(nil)
+  | captureCloseFails -- the same, but `walWriter.Close()` fails after the checkpoint
+  | full             -- full snapshot attempt: Checkpoint(nil), taken when a full snapshot is due
   | needFull         -- anything that makes the store ask for a full snapshot next
 deriving Repr
 
@@ -188,7 +189,7 @@ def sqliteCheckpoint (nextSalt : Nat → Nat) (s : State) : State × CkptMeta :=
     ({ s with file := ckpt s.file s.frames, frames := [], backfill := 0, walEmpty := true,
               salt := nextSalt s.salt, gen := s.gen + 1 }, ⟨0, 0, 0⟩)
 
-inductive CkErr where | none | busy | invariant | notComplete | openTx
+inductive CkErr where | none | busy | invariant | notComplete | openTx | closeFailed
 deriving Repr, DecidableEq
 
 structure CaptureOut where
@@ -198,24 +199,75 @@ structure CaptureOut where
   seg     : Option (List Frame)   -- the segment left in the staging directory, if any
 deriving Repr
 
-/-- the three-outcome bookkeeping after the checkpoint pragma returned `r`; `pre` is the
-salt read before the checkpoint, `seg` the compacted WAL already written to the writer -/
-def captureFinish (pre : Nat) (reset : Bool) (seg : List Frame) (r : State × CkptMeta) : State × CaptureOut :=
-  if r.2.rc = 0 then
-    ({ r.1 with watch := Watch.disarm, segs := r.1.segs ++ [seg] }, ⟨r.2, reset, .none, some seg⟩)
-  else if r.2.moved < r.2.pages then
-    (r.1, ⟨r.2, reset, .busy, none⟩)            -- walWriter.Cancel(): nothing is left behind
-  else if r.2.moved = r.2.pages then
-    ({ r.1 with watch := Watch.arm pre r.2.moved, armGen := r.1.gen, segs := r.1.segs ++ [seg] },
-      ⟨r.2, reset, .none, some seg⟩)
-  else
-    (r.1, ⟨r.2, reset, .invariant, none⟩)
+/-! #### the outcome branches of `CheckpointManager.Checkpoint`, as a table
+The SAME value is (a) interpreted by `captureFinish` and (b) compared, rendered as strings,
+with the branch structure extracted from db/checkpoint_manager.go (Props/C06 `code_outcome_branches`). -/
 
-/-- incremental branch of `fsmSnapshot` over `CheckpointManager.Checkpoint(w, …)` -/
+inductive Cond where | rcZero | movedLtPages | movedEqPages
+deriving Repr, DecidableEq
+
+def Cond.code : Cond → String
+  | .rcZero => "rc == 0"
+  | .movedLtPages => "pnCkpt < pnLog"
+  | .movedEqPages => "pnCkpt == pnLog"
+
+def Cond.holds : Cond → CkptMeta → Bool
+  | .rcZero, m => m.rc = 0
+  | .movedLtPages, m => m.moved < m.pages
+  | .movedEqPages, m => m.moved = m.pages
+
+inductive WatchAct where | keep | disarm | armPreMoved
+deriving Repr, DecidableEq
+
+def WatchAct.code : WatchAct → List String
+  | .keep => []
+  | .disarm => ["Disarm()"]
+  | .armPreMoved => ["Arm(preChkSalt, int64(pnCkpt))"]
+
+inductive Ret where | nil | busy
+deriving Repr, DecidableEq
+
+def Ret.code : Ret → String
+  | .nil => "nil"
+  | .busy => "ErrDatabaseCheckpointBusy"
+
+def Ret.err : Ret → CkErr
+  | .nil => .none
+  | .busy => .busy
+
+structure Branch where
+  cond : Cond
+  act  : WatchAct
+  ret  : Ret
+deriving Repr, DecidableEq
+
+/-- the `if rc == 0 … if pnCkpt < pnLog … else if pnCkpt == pnLog …` chain, in source order -/
+def branches : List Branch :=
+  [⟨.rcZero, .disarm, .nil⟩, ⟨.movedLtPages, .keep, .busy⟩, ⟨.movedEqPages, .armPreMoved, .nil⟩]
+
+def applyBranch (pre : Nat) (reset : Bool) (seg : List Frame) (r : State × CkptMeta) (b : Branch) : State × CaptureOut :=
+  let st : State := match b.act with
+    | .keep => r.1
+    | .disarm => { r.1 with watch := Watch.disarm }
+    | .armPreMoved => { r.1 with watch := Watch.arm pre r.2.moved, armGen := r.1.gen }
+  match b.ret with
+  | .nil => ({ st with segs := st.segs ++ [seg] }, ⟨r.2, reset, .none, some seg⟩)
+  | .busy => (st, ⟨r.2, reset, .busy, none⟩)     -- the store's deferred Cancel removes the file
+
+/-- the bookkeeping after the checkpoint pragma returned `r`: the first branch whose condition
+holds; none holding is the invariant error. `pre` is the salt read before the checkpoint, `seg`
+the compacted WAL already written to the writer -/
+def captureFinish (pre : Nat) (reset : Bool) (seg : List Frame) (r : State × CkptMeta) : State × CaptureOut :=
+  match branches.find? (fun b => b.cond.holds r.2) with
+  | some b => applyBranch pre reset seg r b
+  | none => (r.1, ⟨r.2, reset, .invariant, none⟩)
+
+/-- incremental branch of `fsmSnapshot` over `CheckpointManager.Checkpoint(w, …)`, as one
+function (the specification the step interpreter `runInc` below is proved equal to) -/
 def doCapture (nextSalt : Nat → Nat) (s : State) : State × CaptureOut :=
   if s.walEmpty then
-    -- walSzPre == 0 (the store returns ErrNoWALToSnapshot before even calling)
-    ({ s with watch := Watch.disarm }, ⟨⟨0, 0, 0⟩, false, .none, none⟩)
+    -- `!fsutil.PathExistsWithData(walPath)`: ErrNoWALToSnapshot, nothing is touched
+    (s, ⟨⟨0, 0, 0⟩, false, .none, none⟩)
   else
     let c := s.watch.check s.salt
     let tail := s.frames.drop c.2.1
@@ -224,10 +276,85 @@ def doCapture (nextSalt : Nat → Nat) (s : State) : State × CaptureOut :=
     else
       captureFinish s.salt c.2.2 (compact tail) (sqliteCheckpoint nextSalt { s with watch := c.1 })
 
-/-- `Checkpoint(nil, …)` bookkeeping after the pragma returned `r` -/
+/-- the same attempt when `walWriter.Close()` fails AFTER the checkpoint succeeded (sidecar
+or fsync error): the deferred Cancel removes the staged file, so the frames the checkpoint
+just moved into the database are in no segment; since the `fix:` commit the store then asks
+for a full snapshot (before it, it did not, and the next incremental broke the chain) -/
+def doCaptureCloseFail (nextSalt : Nat → Nat) (s : State) : State × CaptureOut :=
+  let r := doCapture nextSalt s
+  match r.2.seg with
+  | some _ => ({ r.1 with segs := s.segs, dueFull := true }, { r.2 with err := .closeFailed, seg := none })
+  | none => r
+
+/-! #### the incremental branch of `fsmSnapshot` as its list of steps
+`incSteps` is interpreted by `runInc` (so the ORDER matters to the theorems: with the deferred
+Cancel registered after the checkpoint call, a busy checkpoint would leave its file behind)
+and, rendered as strings, compared with the steps extracted from store/store.go. -/
+
+inductive IncStep where
+  | checkWALData | ensureDir | newStagingDir | createWAL | deferCancel | checkpoint | closeWAL
+  | pathStreamer | stateReader
+deriving Repr, DecidableEq
+
+def IncStep.code : IncStep → List String
+  | .checkWALData => ["if-not fsutil.PathExistsWithData"]
+  | .ensureDir => ["if-err fsutil.EnsureDirExists"]
+  | .newStagingDir => ["snapshot.NewStagingDir"]
+  | .createWAL => ["sd.CreateWAL"]
+  | .deferCancel => ["defer walWriter.Cancel"]
+  | .checkpoint => ["if-err s.checkpointer.Checkpoint", "arg walWriter"]
+  | .closeWAL => ["if-err walWriter.Close"]
+  | .pathStreamer => ["snapshot.NewSnapshotPathStreamer"]
+  | .stateReader => ["snapshot.NewStateReader"]
+
+def incSteps : List IncStep :=
+  [.checkWALData, .ensureDir, .newStagingDir, .createWAL, .deferCancel, .checkpoint, .closeWAL, .pathStreamer, .stateReader]
+
+/-- `CheckpointManager.Checkpoint(w, …)` on a non-empty WAL: new state (chain untouched), result,
+and what was written to `w` -/
+def cmCheckpoint (nextSalt : Nat → Nat) (s : State) : State × CaptureOut × List Frame :=
+  let c := s.watch.check s.salt
+  let tail := s.frames.drop c.2.1
+  if committed tail ≠ tail then
+    ({ s with watch := c.1 }, ⟨⟨0, 0, 0⟩, c.2.2, .openTx, none⟩, [])
+  else
+    let r := captureFinish s.salt c.2.2 (compact tail) (sqliteCheckpoint nextSalt { s with watch := c.1 })
+    ({ r.1 with segs := s.segs }, r.2, compact tail)
+
+structure IncRun where
+  st       : State
+  out      : CaptureOut := ⟨⟨0, 0, 0⟩, false, .none, none⟩
+  file     : Option (List Frame) := none   -- the file in the staging directory
+  closed   : Bool := false
+  deferred : Bool := false                 -- `defer walWriter.Cancel()` registered
+  returned : Bool := false
+
+def incStep (nextSalt : Nat → Nat) (closeOk : Bool) (x : IncRun) (step : IncStep) : IncRun :=
+  if x.returned then x else
+  match step with
+  | .checkWALData => if x.st.walEmpty then { x with returned := true } else x
+  | .createWAL => { x with file := some [] }
+  | .deferCancel => { x with deferred := true }
+  | .checkpoint =>
+    let r := cmCheckpoint nextSalt x.st
+    { x with st := r.1, out := r.2.1, file := x.file.map (fun _ => r.2.2), returned := decide (r.2.1.err ≠ .none) }
+  | .closeWAL =>
+    if closeOk then { x with closed := true }
+    else { x with st := { x.st with dueFull := true }, out := { x.out with err := .closeFailed }, returned := true }
+  | _ => x
+
+/-- run the steps, then the deferred Cancel (a no-op once Close succeeded); the file that is
+left in the staging directory joins the chain -/
+def runInc (nextSalt : Nat → Nat) (closeOk : Bool) (steps : List IncStep) (s : State) : State × CaptureOut :=
+  let x := steps.foldl (incStep nextSalt closeOk) { st := s }
+  let file := if x.deferred && !x.closed then none else x.file
+  ({ x.st with segs := x.st.segs ++ file.toList }, { x.out with seg := file })
+
+/-- `Checkpoint(nil, …)` bookkeeping after the pragma returned `r`; a failed attempt changes
+nothing about what is due next (it already was a full snapshot) -/
 def fullFinish (r : State × CkptMeta) : State × CkptMeta × CkErr :=
   if r.2.rc ≠ 0 then
-    ({ r.1 with dueFull := true }, r.2, .notComplete)
+    (r.1, r.2, .notComplete)
   else
     ({ r.1 with watch := Watch.disarm, base := r.1.file, segs := [], dueFull := false }, r.2, .none)
 
@@ -239,13 +366,15 @@ def doFull (nextSalt : Nat → Nat) (s : State) : State × CkptMeta × CkErr :=
   else
     fullFinish (sqliteCheckpoint nextSalt s)
 
-/-- one step of the system; the `Bool` says whether the operation was enabled -/
+/-- one step of the system. `fsmSnapshot` takes the full branch exactly when a full snapshot is
+due (`snapshotDueNext`), the incremental branch otherwise. -/
 def next (nextSalt : Nat → Nat) (s : State) : Op → State
   | .write fs => if validTx s.logical.size fs then doWrite nextSalt s fs else s
   | .rstart id => if s.readers.any (·.id = id) then s else doRStart s id
   | .rstop id => doRStop s id
-  | .capture => if s.dueFull then s else (doCapture nextSalt s).1
-  | .full => (doFull nextSalt s).1
+  | .capture => if s.dueFull then s else (runInc nextSalt true incSteps s).1
+  | .captureCloseFails => if s.dueFull then s else (runInc nextSalt false incSteps s).1
+  | .full => if s.dueFull then (doFull nextSalt s).1 else s
   | .needFull => { s with dueFull := true }
 
 def run (nextSalt : Nat → Nat) (s : State) (ops : List Op) : State := ops.foldl (next nextSalt) s
@@ -260,6 +389,7 @@ def fresh (d : Db) : State := { file := d, base := d }
 `capture`  → `rc=<n> pages=<n> moved=<n> reset=<b> err=<e> armed=<b> resume=<n> seg=<frames|-|none>`
 `full`     → `rc=<n> pages=<n> moved=<n> err=<e> armed=<b>`
 `captureb` / `fullb` → `err=<e> [kept=<b>] walempty=<b>`  (store-level view)
+`captureclosefailb` → the same with `walWriter.Close()` failing, plus `fulldue=<b>`
 `needfull` → `ok`
 `dbfile`   → `<v1,v2,…|->`   the database file
 `logical`  → `<v1,…>`        file + WAL;  `rebuilt` → base + captured segments -/
@@ -291,7 +421,7 @@ def dbOfList (vs : List Nat) : Db :=
 
 def errStr : CkErr → String
   | .none => "none" | .busy => "busy" | .invariant => "invariant"
-  | .notComplete => "notcomplete" | .openTx => "opentx"
+  | .notComplete => "notcomplete" | .openTx => "opentx" | .closeFailed => "closefailed"
 
 def step (d : DState) (line : String) : DState × String :=
   match words line with
@@ -319,11 +449,12 @@ def step (d : DState) (line : String) : DState × String :=
   | ["capture"] =>
     if d.s.dueFull then (d, "full-due")
     else
-      let (s', o) := doCapture drvSalt d.s
+      let (s', o) := runInc drvSalt true incSteps d.s
       let seg := match o.seg with | none => "none" | some fs => showFrames fs
       ({ s := s' },
         s!"rc={o.cm.rc} pages={o.cm.pages} moved={o.cm.moved} reset={boolStr o.reset} err={errStr o.err} armed={boolStr s'.watch.armed} resume={s'.watch.resume} seg={seg}")
   | ["full"] =>
+    if !d.s.dueFull then (d, "not-due") else
     let (s', m, e) := doFull drvSalt d.s
     ({ s := s' }, s!"rc={m.rc} pages={m.pages} moved={m.moved} err={errStr e} armed={boolStr s'.watch.armed}")
   -- the same two operations as seen through the store (`Store.Snapshot`): only the error
@@ -331,9 +462,15 @@ def step (d : DState) (line : String) : DState × String :=
   | ["captureb"] =>
     if d.s.dueFull then (d, "full-due")
     else
-      let (s', o) := doCapture drvSalt d.s
+      let (s', o) := runInc drvSalt true incSteps d.s
       ({ s := s' }, s!"err={errStr o.err} kept={boolStr o.seg.isSome} walempty={boolStr s'.walEmpty}")
+  | ["captureclosefailb"] =>
+    if d.s.dueFull then (d, "full-due")
+    else
+      let (s', o) := runInc drvSalt false incSteps d.s
+      ({ s := s' }, s!"err={errStr o.err} kept={boolStr o.seg.isSome} walempty={boolStr s'.walEmpty} fulldue={boolStr s'.dueFull}")
   | ["fullb"] =>
+    if !d.s.dueFull then (d, "not-due") else
     let (s', _, e) := doFull drvSalt d.s
     ({ s := s' }, s!"err={errStr e} walempty={boolStr s'.walEmpty}")
   | ["needfull"] => ({ s := { d.s with dueFull := true } }, "ok")
